@@ -11,6 +11,19 @@ Definition P0 : atom -> Z -> Prop := fun _ _ => True.
 Definition Q0 : dmol -> Prop := fun _ => True.
 Notation WF0 := (MolWF P0 Q0).
 
+Definition Q20 : dmol -> Prop := fun _ => True.
+Lemma q2_root : forall m a cap at_, WF0 m -> Q20 m -> Q20 (fst (add_atom m a cap at_ true)).
+Proof. intros; exact I. Qed.
+Lemma q2_step : forall m a cap at_ p mu st at2 m3, WF0 m -> Q20 m -> (p < natoms m)%nat -> 1 <= mu <= 3 ->
+  add_bond (fst (add_atom m a cap at_ false)) p (natoms m) mu st at2 = Ok m3 -> Q20 m3.
+Proof. intros; exact I. Qed.
+Lemma q2_upd : forall m l rr new m', WF0 m -> Q20 m -> (l < rr)%nat -> (rr < natoms m)%nat -> 1 <= new <= 3 ->
+  update_bond_order m l rr new = Ok m' -> Q20 m'.
+Proof. intros; exact I. Qed.
+Lemma q2_ring : forall m l rr order sa sb pl pr m', WF0 m -> Q20 m -> (l < rr)%nat -> (rr < natoms m)%nat -> 1 <= order <= 3 ->
+  has_bond m l rr = false -> add_ring_bond m l rr order sa sb pl pr = Ok m' -> Q20 m'.
+Proof. intros; exact I. Qed.
+
 Lemma q_atom : forall m a cap at_ root, WF0 m -> Q0 (fst (add_atom m a cap at_ root)).
 Proof. intros; exact I. Qed.
 Lemma q_bond : forall m src dst order st at_ m', WF0 m -> (src < dst)%nat -> (dst < natoms m)%nat ->
@@ -90,12 +103,12 @@ Proof.
     assert (Hg2 : goods rest2) by (rewrite Hpre2 in Hrest; now apply goods_suffix in Hrest).
     assert (StSub : StOK m binit prev).
     { split; [lia|]. intros _. exists p. repeat split; auto. lia. }
-    pose proof (derive_good P0 Q0 q_atom q_bond T Hq None Hnone aidx HP f rest2 m (Some (N.to_nat (get_index_from_selfies syms) + 1)%nat)
-                  binit prev rings (push_attr astack ((idx + aidx)%nat, sym)) 0%nat Hl2 Hm Hr StSub (goods_toks_ok _ Hg2)) as Sub.
+    pose proof (derive_good P0 Q0 q_atom q_bond Q20 q2_root q2_step T Hq None Hnone aidx HP f rest2 m (Some (N.to_nat (get_index_from_selfies syms) + 1)%nat)
+                  binit prev rings (push_attr astack ((idx + aidx)%nat, sym)) 0%nat Hl2 Hm I Hr StSub (goods_toks_ok _ Hg2)) as Sub.
     destruct (IH rest2 m (Some (N.to_nat (get_index_from_selfies syms) + 1)%nat) binit prev rings
                 (push_attr astack ((idx + aidx)%nat, sym)) 0%nat Hl2 Hm Hr StSub Hg2) as [[[[rest3 m2] rings2] nsub] Esub].
     unfold derive in Sub, Esub. rewrite Esub in *. cbn [bind].
-    unfold Good, Post in Sub. destruct Sub as (Hm2 & Hr2 & F2 & pre3 & Hpre3).
+    unfold Good, Post in Sub. destruct Sub as (Hm2 & Hr2 & F2 & (pre3 & Hpre3) & _).
     assert (Hl3 : (length rest3 < f)%nat) by (rewrite Hpre3, app_length in Hl2; lia).
     assert (Hg3 : goods rest3) by (rewrite Hpre3 in Hg2; now apply goods_suffix in Hg2).
     destruct F2 as (A2 & B2 & C2 & D2).
@@ -200,10 +213,10 @@ Proof.
   assert (Hlen : (length (enumerate_from 0 ts) < S (length ts))%nat) by (rewrite enumerate_from_length; lia).
   destruct (derive_ok T Hq aidx (S (length ts)) (enumerate_from 0 ts) m None 0 PNone rings
               (if attribute then Some [] else None) 0%nat Hlen Hm Hr Hst Hg) as [[[[ts' m2] rings2] n] E].
-  pose proof (derive_good P0 Q0 q_atom q_bond T Hq None (or_introl eq_refl) aidx (fun _ _ _ _ _ _ => I) (S (length ts)) (enumerate_from 0 ts) m None 0 PNone rings
-                (if attribute then Some [] else None) 0%nat Hlen Hm Hr Hst (goods_toks_ok T _ Hg)) as G.
+  pose proof (derive_good P0 Q0 q_atom q_bond Q20 q2_root q2_step T Hq None (or_introl eq_refl) aidx (fun _ _ _ _ _ _ => I) (S (length ts)) (enumerate_from 0 ts) m None 0 PNone rings
+                (if attribute then Some [] else None) 0%nat Hlen Hm I Hr Hst (goods_toks_ok T _ Hg)) as G.
   unfold derive in E, G. rewrite E in *. cbn [bind].
-  destruct G as (Hm2 & Hr2 & _ & _). apply (IH m2 rings2 (aidx + n)%nat Hm2 Hr2 Hrest).
+  destruct G as (Hm2 & Hr2 & _ & _ & _). apply (IH m2 rings2 (aidx + n)%nat Hm2 Hr2 Hrest).
 Qed.
 
 (* every fragment tokenises without a hanging bracket into symbols of the grammar => the decoder returns *)
@@ -214,7 +227,7 @@ Proof.
   destruct (derive_frags_ok attribute (tokenize_all s compat) empty_mol [] 0%nat (wf_empty P0 Q0 I) (Forall_nil _) H)
     as (m1 & rings & E & Hm1 & Hr1).
   unfold derive_frags in E. rewrite E. cbn [bind].
-  destruct (form_rings_good P0 Q0 q_upd q_ring rings m1 Hm1 Hr1) as (m' & E' & Hm' & _). rewrite E'. cbn [bind].
+  destruct (form_rings_good P0 Q0 q_upd q_ring Q20 q2_upd q2_ring rings m1 Hm1 I Hr1) as (m' & E' & Hm' & _). rewrite E'. cbn [bind].
   apply (mol_to_smiles_ok P0 Q0 m' Hm').
 Qed.
 End Whole.
